@@ -40,7 +40,7 @@ Proof.
       unfold view_of in X. inv X. auto.
     + left. exists res. split; auto. destruct Hres as [-> | ->]; intro X; vm_compute in X; discriminate X.
   - apply unlock_step_sum in E.
-    destruct E as [(res & K & R & Hres)|(r & l & Hl & Ht & Wt & Hid & C & R)].
+    destruct E as [(res & K & R & Hres)|(r & l & Hl & Ht & (Wt & _) & Hid & C & R)].
     + left. exists res. auto.
     + left. exists R_LOCKED_ERROR. split; [intro X; vm_compute in X; discriminate X|].
       right. exists r, l. unfold live_waiter. auto.
